@@ -11,6 +11,11 @@ CHECKS = {
             "Every string of up to 3 (thorough 4) tokens over a 36-token alphabet (YAML indicators, anchors, aliases, tags, block scalar headers, document markers, directives, multi-byte characters, BOM, invalid UTF-8 bytes, NUL) x 15 target types x 23 (entry point, option vector) combinations (from_str, from_slice, from_reader whole and 1-byte reads, from_multiple, from_slice_multiple, read iterator drained, with_deserializer_from_str / _from_reader; default, no budget, every budget limit 3, FirstWins/LastWins, no_schema + strict booleans + legacy octal, snippets off, alias limits) is executed; every returned error is rendered 6 ways (Display, Debug, render, two formatters, miette). The product runs in child processes: a panic is caught and attributed, an abort / stack overflow / out-of-memory kills the child and the parent bisects the index range down to the single input, a call that does not return within 5 s is named by the in-child watchdog. 11 deep / wide families (nested sequences, mappings, flow collections, indentation ladders, long scalars, many anchors / aliases / documents) are run on a grid of sizes around the budget boundaries, each point in its own child on an 8 MiB main-thread stack. Isolated probes keep the once-hanging reader/directive class under watch.",
             "Trusted: the child-process isolation (exit codes, watchdog); stack figures are those of this build (release, overflow-checks and debug-assertions on for serde-saphyr) on this machine.",
             "DESIGN.md §3 C01"),
+    "C18": ("model_checking",
+            "complete enumeration of violated-constraint subsets x provenance of every constrained value x layouts x both validation crates x entry points on the real library, positions compared with the generator's position table; streams with every subset of failing documents",
+            "A fixed family of validated types (root struct with camelCase-renamed fields and a raw-identifier field, nested struct with a kebab-case-renamed leaf two levels down, a sequence of structs, an optional struct), derived once with garde and once with validator. Every subset of the 8 constraints is violated (2^8) x every provenance vector of the constrained values (written in place / alias of an anchored scalar / through a merge key / alias inside a merged mapping / the whole struct holding the field is an alias; thorough: the full product 4320, quick: 120 tied vectors) x block|flow x garde|validator x from_str|from_slice|from_reader. With no violation the validating entry point must return exactly what the plain one returns; otherwise the error must be the validation variant, report exactly the violated fields, each with the YAML spelling of its leaf, its use site equal to the generator's position of that field's value (alias token, merge entry) and - if reached through an anchor - the position of the anchored literal as definition site; the same is demanded of Error::locations() for single violations. Observed through a capturing Localizer, i.e. through the public rendering interface. Streams of 3 (thorough 4) documents with every subset of failing documents: all failing documents must be reported, none of the passing ones.",
+            "Trusted: the generator's position table (self-checked against raw parser events); the convention that a value reached through a merge is 'used' at either token of the merge entry and one reached through an aliased struct at that alias token or at its position inside the anchored mapping. Inner path segments may keep their Rust spelling (only the leaf is resolved by the library); for reader input the definition site is observable for the first issue only.",
+            "DESIGN.md §3 C18"),
     "C17": ("model_checking",
             "bounded-exhaustive enumeration of failing documents built from (reflection channel x payload x padding x line structure) x crop radii x formatters x entry points; rendered text judged against a reference of the documented window",
             "(a) Every failing (input, target) pair of the C01 token space up to the length bound (quick 3, thorough 4 tokens), through from_str and from_reader, x crop radii; (b) 7 reflection channels (ways input text reaches the message: unknown field, unknown variant, duplicate key, invalid value, alias name, tag, plain source line) x 12 payloads (terminal escape sequences, C0, DEL and C1 characters written as YAML escapes and raw) x padding before / after the reflected text (multi-byte, up to 20000 characters) x LF|CRLF x from_str|from_reader x 6 crop radii (0, 1, small, default, huge). Each error is rendered with Display, render, the user formatter, a custom formatter, snippets off and (string input) the miette adapter. For each rendering: no control character other than newline/tab, at most 2 context lines either side, each shown line no wider than the window, the located line is shown and the marker sits under the reported column (where tabs / wide characters do not make columns incomparable).",
